@@ -18,8 +18,9 @@ run by the per-step correspondence of the `editor` harness (records `ed key/sele
 and `ed cands` = the four candidate getters), from the implementation's own pre-state.
 
 Sections: 1 paging (all lists, page sizes, page indices) · 2 the current page is in range (invariant
-of every key / choice / jump / open step; F32: not of configuration calls while a list is open —
-refuted + partial) · 3 choosing · 4 completeness of a phrase list.
+of every operation: key / choice / jump / open step and — since the F32 repair, `revalidate_selecting` —
+option / layout / dictionary calls while a list is open: `page_in_range`, every history) · 3 choosing ·
+4 completeness of a phrase list; the highlighted range consists of syllables (`range_is_syllables`).
 -/
 namespace Chewing.C07
 open Chewing Chewing.C06
@@ -104,34 +105,50 @@ theorem opens_on_page_zero {sh sh' : Shared D L} {ev : KeyEvent} {s : Selecting}
     (enteringSyllableNext env sh ev = .ok (sh', .toState (.selecting s)) → s.pageNo = 0) :=
   ⟨opens0_enteringNext env sh ev sh' s, opens0_enteringSyllableNext env sh ev sh' s⟩
 
-/-- the operations that may change what is listed, or the page size, without touching the page number -/
-def Op.reconfigures {L : Type} : Op L → Bool
-  | .setOptions _ | .setLayout _ | .learn _ _ | .unlearn _ _ | .clearSyl => true
-  | _ => false
+/-- the layout's table of alternative syllables (`SyllableEditor::alt_syllables`, a constant table per
+    layout in every implementation) does not depend on the content of the phonetic buffer -/
+def ClearSylKeepsAlt : Prop := ∀ l c, env.altSyllables (env.clearSyl l) c = env.altSyllables l c
 
-def Editor.isSelecting (e : Editor D L) : Bool :=
-  match e.state with
-  | .selecting _ => true
-  | _ => false
+/-- `Editor::revalidate_selecting` — the last step of `set_editor_options`, `set_syllable_editor`,
+    `learn_phrase`, `unlearn_phrase` since the F32 repair — **establishes** the page invariant, whatever
+    the page number was before: afterwards no list is open, or the page is strictly below the page count -/
+theorem revalidate_in_range {e e' : Editor D L} (h : e.revalidate env = .ok e') :
+    ∀ s, e'.state = .selecting s → ∃ tp, Selecting.totalPage env s e'.shared = .ok tp ∧ s.pageNo < tp := by
+  unfold Editor.revalidate at h
+  split at h
+  · rename_i s0 hs0
+    split at h
+    · rename_i tp ht
+      split at h
+      · injection h with h; subst h; intro s hs; cases hs
+      · rename_i h0
+        have h0 : tp ≠ 0 := by simpa using h0
+        split at h
+        · injection h with h; subst h
+          intro s hs; injection hs with hs; subst hs
+          exact ⟨tp, ht, by show tp - 1 < tp; omega⟩
+        · rename_i hlt
+          injection h with h; subst h
+          intro s hs; rw [hs0] at hs; injection hs with hs; subst hs
+          exact ⟨tp, ht, by omega⟩
+    · cases h
+    · cases h
+  · rename_i hns
+    injection h with h; subst h
+    intro s hs; exact absurd hs (hns s)
 
-/-- **F32** (known finding): a configuration / dictionary call made *while a list is open* -/
-def KnownF32 (e : Editor D L) (op : Op L) : Prop := Editor.isSelecting e = true ∧ Op.reconfigures op = true
+theorem revalidate_pageInv {e e' : Editor D L} (h : e.revalidate env = .ok e') : e'.PageInv env := by
+  intro s hs tp ht
+  obtain ⟨tp', ht', hlt⟩ := revalidate_in_range env h s hs
+  rw [ht] at ht'; injection ht' with ht'; subst ht'
+  exact Or.inl hlt
 
-/-- one operation keeps the invariant unless it is an F32 step -/
-theorem page_in_range_op (hf : FlushKeepsLookups env) {e e' : Editor D L} {op : Op L}
-    (h : e.apply env op = .ok e') (hk : ¬ KnownF32 e op) (hi : e.PageInv env) : e'.PageInv env := by
-  have closed : ∀ x : Editor D L, Editor.isSelecting x = false → x.PageInv env := by
-    intro x hx s hs; unfold Editor.isSelecting at hx; rw [hs] at hx; cases hx
-  have leave : ∀ x : Editor D L, Editor.isSelecting x = false →
-      Editor.isSelecting (Editor.leaveIfEmpty env x) = false := by
-    intro x hx; unfold Editor.leaveIfEmpty; split
-    · rfl
-    · exact hx
-  have hns : Op.reconfigures op = true → Editor.isSelecting e = false := by
-    intro hr
-    cases hsel : Editor.isSelecting e with
-    | false => rfl
-    | true => exact absurd ⟨hsel, hr⟩ hk
+/-- **every operation keeps the invariant** — keys, choices, jumps, opening / closing, commit, reset, and
+    (since the F32 repair) the option / layout / dictionary calls, also while a list is open -/
+theorem page_in_range_op (hf : FlushKeepsLookups env) (hca : ClearSylKeepsAlt env) {e e' : Editor D L} {op : Op L}
+    (h : e.apply env op = .ok e') (hi : e.PageInv env) : e'.PageInv env := by
+  have closed : ∀ x : Editor D L, (∀ s, x.state ≠ .selecting s) → x.PageInv env := by
+    intro x hx s hs; exact absurd hs (hx s)
   cases op with
   | key ev =>
     simp only [Editor.apply] at h
@@ -165,7 +182,7 @@ theorem page_in_range_op (hf : FlushKeepsLookups env) {e e' : Editor D L} {op : 
     simp only [Editor.apply] at h; injection h with h; subst h
     unfold Editor.cancelSelecting
     split
-    · exact closed _ rfl
+    · exact closed _ (by intro s hs; cases hs)
     · exact hi
   | commit =>
     simp only [Editor.apply] at h
@@ -178,10 +195,10 @@ theorem page_in_range_op (hf : FlushKeepsLookups env) {e e' : Editor D L} {op : 
         exact hc.1
       split at h
       · simp only [Outcome.map] at h; injection h with h; subst h
-        exact closed _ (by unfold Editor.isSelecting; simp only [hent])
+        exact closed _ (by intro s hs; simp only [hent] at hs; cases hs)
       · simp [Outcome.map] at h
       · simp [Outcome.map] at h
-  | clear => simp only [Editor.apply] at h; injection h with h; subst h; exact closed _ rfl
+  | clear => simp only [Editor.apply] at h; injection h with h; subst h; exact closed _ (by intro s hs; cases hs)
   | ack =>
     simp only [Editor.apply] at h; injection h with h; subst h
     intro s hs
@@ -191,51 +208,84 @@ theorem page_in_range_op (hf : FlushKeepsLookups env) {e e' : Editor D L} {op : 
     intro s hs
     exact pageOk_congr env (sameList_of_fields env rfl rfl rfl) (hi s hs)
   | clearSyl =>
+    -- `clear_syllable_editor` does not revalidate: what is listed does not depend on the buffer's content
     simp only [Editor.apply] at h; injection h with h; subst h
-    exact closed _ (leave _ (hns rfl))
-  | setOptions o =>
-    simp only [Editor.apply] at h; injection h with h; subst h
-    exact closed _ (leave _ (hns rfl))
-  | setLayout l =>
-    simp only [Editor.apply] at h; injection h with h; subst h
-    exact closed _ (leave _ (hns rfl))
+    intro s hs
+    have hst : e.state = .selecting s := by
+      unfold Editor.clearSyllableEditor Editor.leaveIfEmpty at hs
+      split at hs
+      · cases hs
+      · exact hs
+    have hsh : (Editor.clearSyllableEditor env e).shared = { e.shared with syl := env.clearSyl e.shared.syl } := by
+      unfold Editor.clearSyllableEditor Editor.leaveIfEmpty; split <;> rfl
+    rw [hsh]
+    have hcand : Selecting.candidates env s { e.shared with syl := env.clearSyl e.shared.syl } =
+        Selecting.candidates env s e.shared := by
+      unfold Selecting.candidates
+      cases s.sel with
+      | phrase p =>
+        have hca' : ∀ l c, env.altSyllables (env.clearSyl l) c = env.altSyllables l c := hca
+        simp only; unfold PhraseSel.candidates; simp only [hca']
+      | symbol y => rfl
+      | special sym => rfl
+    intro tp ht
+    have ht' : Selecting.totalPage env s e.shared = .ok tp := by
+      unfold Selecting.totalPage at ht ⊢; rw [hcand] at ht; exact ht
+    rw [hcand]
+    exact hi s hst tp ht'
+  | setOptions o => exact revalidate_pageInv env h
+  | setLayout l => exact revalidate_pageInv env h
   | learn k p =>
     simp only [Editor.apply] at h
-    cases hr : Shared.learnPhrase env e.shared k p with
-    | ok x => rw [hr] at h; simp only [Outcome.map] at h; injection h with h; subst h
-              exact closed _ (hns rfl)
-    | panic p => rw [hr] at h; simp [Outcome.map] at h
-    | outOfFuel => rw [hr] at h; simp [Outcome.map] at h
-  | unlearn k p =>
-    simp only [Editor.apply] at h; injection h with h; subst h
-    exact closed _ (hns rfl)
-
-/-- a history without F32 steps -/
-def NoF32 : Editor D L → List (Op L) → Prop
-  | _, [] => True
-  | e, op :: ops => ¬ KnownF32 e op ∧ ∀ e', e.apply env op = .ok e' → NoF32 e' ops
+    split at h
+    · exact revalidate_pageInv env h
+    · cases h
+    · cases h
+  | unlearn k p => exact revalidate_pageInv env h
 
 /-- the full-strength claim: the page invariant survives every history -/
 def page_in_range_full : Prop :=
-  ∀ (D L : Type) (env : Env D L), FlushKeepsLookups env →
+  ∀ (D L : Type) (env : Env D L), FlushKeepsLookups env → ClearSylKeepsAlt env →
     ∀ (e e' : Editor D L) (ops : List (Op L)), e.PageInv env → e.run env ops = .ok e' → e'.PageInv env
 
-/-- **current page < page count (or nothing listed) in every state reached** by keys, choices, jumps,
-    opening / closing, commit, reset — and by configuration / dictionary calls made while no list is
-    open (`_partial`: histories without F32 steps) -/
-theorem page_in_range_partial (hf : FlushKeepsLookups env) (ops : List (Op L)) :
-    ∀ (e e' : Editor D L), e.PageInv env → NoF32 env e ops → e.run env ops = .ok e' → e'.PageInv env := by
-  induction ops with
-  | nil => intro e e' hi _ h; simp only [Editor.run] at h; injection h with h; subst h; exact hi
+/-- **current page < page count (or nothing listed) in every state reached by ANY history** of keys,
+    choices, jumps, opening / closing, commit, reset, option / layout / engine / dictionary calls — made
+    while a list is open or not (before the F32 repair: `page_in_range_partial`, histories without such a
+    call under an open list, and `page_in_range_refuted`) -/
+theorem page_in_range : page_in_range_full := by
+  intro D L env hf hca e e' ops
+  induction ops generalizing e with
+  | nil => intro hi h; simp only [Editor.run] at h; injection h with h; subst h; exact hi
   | cons op ops ih =>
-    intro e e' hi hn h
+    intro hi h
     simp only [Editor.run] at h
     cases hr : e.apply env op with
     | ok e1 =>
       rw [hr] at h; simp only at h
-      exact ih e1 e' (page_in_range_op env hf hr hn.1 hi) (hn.2 e1 hr) h
+      exact ih e1 (page_in_range_op env hf hca hr hi) h
     | panic p => rw [hr] at h; cases h
     | outOfFuel => rw [hr] at h; cases h
+
+/-- the operations that may change what is listed, or the page size -/
+def Op.reconfigures {L : Type} : Op L → Bool
+  | .setOptions _ | .setLayout _ | .learn _ _ | .unlearn _ _ => true
+  | _ => false
+
+/-- **after an option / layout / dictionary call** a list that is still open is not empty and its page is
+    strictly below the page count (no "or nothing listed": a list that became empty was closed) -/
+theorem reconfigured_list_in_range {e e' : Editor D L} {op : Op L} (hop : Op.reconfigures op = true)
+    (h : e.apply env op = .ok e') :
+    ∀ s, e'.state = .selecting s → ∃ tp, Selecting.totalPage env s e'.shared = .ok tp ∧ s.pageNo < tp := by
+  cases op <;> simp only [Op.reconfigures] at hop <;> try cases hop
+  case setOptions o => exact revalidate_in_range env h
+  case setLayout l => exact revalidate_in_range env h
+  case unlearn k p => exact revalidate_in_range env h
+  case learn k p =>
+    simp only [Editor.apply] at h
+    split at h
+    · exact revalidate_in_range env h
+    · cases h
+    · cases h
 
 /-- a freshly created editor satisfies the invariant (no list open) -/
 theorem page_inv_init (sh : Shared D L) : Editor.PageInv env { shared := sh, state := .entering } := by
@@ -260,7 +310,7 @@ theorem init_range {fw : Bool} {st : Strategy} {com : Composition} {cur : Nat} {
     p.begin_ < p.end_ ∧ p.end_ ≤ p.com.len ∧ p.com = com ∧
     PhraseSel.rangeHasPhrase env p d p.begin_ p.end_ = .ok true := init_ok env h
 
-/-! ### F32: the witness -/
+/-! ### F32 (repaired): the former witness -/
 
 /-- two words for syllable 1, nothing else -/
 def f32Env : Env Unit Nat :=
@@ -277,24 +327,49 @@ def f32Ops : List (Op Nat) :=
   [.startSelecting, .key { index := 55, code := KC.right, unicode := 65533 },
    .setOptions { candidatesPerPage := 10 }]
 
-theorem f32_witness :
+/-- **F32 repaired** (was `f32_witness` / `page_in_range_refuted`: page 1 of 1 page, nothing enumerable):
+    after `chewing_set_candPerPage(10)` on page 1 of a two-candidate list the list is on its only page 0
+    and both candidates are enumerated -/
+theorem f32_history_repaired :
     ∃ (e' : Editor Unit Nat) (s : Selecting),
-      f32Start.run f32Env f32Ops = .ok e' ∧ e'.state = .selecting s ∧ s.pageNo = 1 ∧
+      f32Start.run f32Env f32Ops = .ok e' ∧ e'.state = .selecting s ∧ s.pageNo = 0 ∧
       Selecting.totalPage f32Env s e'.shared = .ok 1 ∧
-      Selecting.candidates f32Env s e'.shared = .ok [[28204], [31574]] :=
-  ⟨_, _, rfl, rfl, rfl, rfl, rfl⟩
+      CApi.enumerate f32Env e' = .ok [[28204], [31574]] ∧ e'.PageInv f32Env := by
+  refine ⟨_, _, rfl, rfl, rfl, rfl, rfl, ?_⟩
+  exact page_in_range Unit Nat f32Env (fun _ _ _ => rfl) (fun _ _ => rfl) f32Start _ f32Ops (page_inv_init f32Env _) rfl
 
-/-- the step that breaks the invariant is an F32 step -/
-theorem f32_is_known : ∃ e1, f32Start.run f32Env (f32Ops.take 2) = .ok e1 ∧
-    KnownF32 e1 (.setOptions { candidatesPerPage := 10 } : Op Nat) := ⟨_, rfl, rfl, rfl⟩
+/-- a dictionary that holds one two-syllable user phrase (besides a word per syllable) until it is removed -/
+def f32EnvB : Env Bool Nat where
+  lookupAll d k _ := if k = [1] then [⟨[28204], 1, none⟩] else if k = [2] then [⟨[35430], 1, none⟩]
+    else if k = [1, 2] ∧ d then [⟨[28204, 35430], 1, none⟩] else []
+  userLookupAll d k _ := if k = [1, 2] ∧ d then [⟨[28204, 35430], 1, none⟩] else []
+  addPhrase _ _ _ := some true
+  updatePhrase d _ _ _ _ := d
+  removePhrase _ _ _ := false
+  reopenFlush d := d
+  convert _ _ _ := .ok [[]]
+  estimate _ f _ := .ok f
+  keyPress l _ := (.keyError, l)
+  fuzzyKeyPress l _ := (.keyError, l)
+  removeLast _ := 0
+  clearSyl _ := 0
+  sylIsEmpty l := l == 0
+  read l := l
+  altSyllables _ _ := []
 
-theorem page_in_range_refuted : ¬ page_in_range_full := by
-  intro h
-  obtain ⟨e', s, hrun, hs, hp, htp, hc⟩ := f32_witness
-  have hinv := h Unit Nat f32Env (fun _ _ _ => rfl) f32Start e' f32Ops (page_inv_init f32Env _) hrun s hs 1 htp
-  rcases hinv with h1 | h1
-  · omega
-  · rw [hc] at h1; cases h1
+/-- **the other half of F32 repaired**: `chewing_userphrase_remove` of the only phrase of the highlighted
+    range (two syllables, list opened at the end of the buffer, rearward) used to leave an open list with 0
+    candidates, 0 pages, page 0; now the list is closed and the saved cursor restored -/
+theorem f32_empty_list_closed :
+    ∃ (e1 e' : Editor Bool Nat) (s : Selecting),
+      let start : Editor Bool Nat :=
+        { shared := { syl := 0, dict := true, options := { phraseChoiceRearward := true },
+                      com := { cursor := 2, inner := { symbols := [.syl 1, .syl 2], gaps := [.begin, .normal] } } } }
+      start.run f32EnvB [.startSelecting] = .ok e1 ∧ e1.state = .selecting s ∧
+      Selecting.candidates f32EnvB s e1.shared = .ok [[28204, 35430]] ∧
+      e1.run f32EnvB [.unlearn [1, 2] [28204, 35430]] = .ok e' ∧ e'.state = .entering ∧
+      e'.shared.com.cursor = 2 ∧ e'.shared.com.stack = [] :=
+  ⟨_, _, _, rfl, rfl, rfl, rfl, rfl, rfl, rfl⟩
 
 /-! ## 3. Choosing -/
 
@@ -591,9 +666,7 @@ example : ∃ (e' : Editor Unit Nat) (s : Selecting),
     f32Start.run f32Env (f32Ops.take 2) = .ok e' ∧ e'.state = .selecting s ∧ s.pageNo = 1 ∧
     Selecting.totalPage f32Env s e'.shared = .ok 2 ∧ e'.PageInv f32Env := by
   refine ⟨_, _, rfl, rfl, rfl, rfl, ?_⟩
-  apply page_in_range_partial f32Env (fun _ _ _ => rfl) (f32Ops.take 2) f32Start _ (page_inv_init f32Env _) _ rfl
-  refine ⟨fun hk => absurd hk.2 (by decide), fun e1 h1 => ⟨?_, fun _ _ => trivial⟩⟩
-  intro hk; exact absurd hk.2 (by decide)
+  exact page_in_range Unit Nat f32Env (fun _ _ _ => rfl) (fun _ _ => rfl) f32Start _ (f32Ops.take 2) (page_inv_init f32Env _) rfl
 
 /-- choosing index 0 on page 1 (per page 1) of that list places the second word -/
 example : ∃ (e1 : Editor Unit Nat) (s : Selecting) (x : Selecting × Shared Unit Nat × Trans),
